@@ -40,7 +40,7 @@ SMALL_CUSTOM = [((2,), "bare", "bare"), ((1, 2), "star", "per-edge"), ((1, 2), "
 
 def gen_cases(tier, seed):
     cases = []
-    ne, ns = (120, 24) if tier == "quick" else (900, 90)
+    ne, ns = (120, 24) if tier == "quick" else (2500, 200)
     for i in range(ne):
         cases.append({"mode": "exact", "seed": seed * 100129 + i, "limit": 5040 if tier == "quick" or i % 6 else 50000,
                       "_cost": 1 if tier == "quick" or i % 6 else 8})
